@@ -33,7 +33,7 @@ def rule_C8(ctx, prog, label, rule='C8'):
             want = (_ref_left(n) << o) & ((1 << 64) - 1)
             lines.append('static_assert((u64)(__M4RI_MIDDLE_BITMASK(%d, %d)) == 0x%xULL, "MIDDLE_BITMASK(%d,%d)");' % (n, o, want, n, o))
             n_assert += 1
-    src = os.path.join(CACHE, 'witness_masks_%s.cc' % cfg_id(prog.cfg))
+    src = os.path.join(CACHE, 'witness_masks_%s_%d.cc' % (cfg_id(prog.cfg), os.getpid()))
     open(src, 'w').write('\n'.join(lines) + '\n')
     cmd = ['clang++-14' if _have('clang++-14') else 'clang++', '-std=c++17', '-fsyntax-only', '-ferror-limit=0', '-Wno-everything',
            '-DHAVE_CONFIG_H', '-I' + REPO, '-I' + REPO + '/m4ri', '-include', hdr, src]
@@ -53,18 +53,23 @@ def rule_C8(ctx, prog, label, rule='C8'):
     rr.instances = n_assert
     rr.obligations = n_assert
     rr.discharged = n_assert - len(failed)
-    rr.samples.append(dict(witness='static_assert((u64)(__M4RI_MIDDLE_BITMASK(5, 7)) == 0xf80ULL)', unit=src, assertions=n_assert))
+    rr.samples.append(dict(witness='static_assert((u64)(__M4RI_MIDDLE_BITMASK(5, 7)) == 0xf80ULL)', assertions=n_assert))
     if failed:
         rr.findings.append(Finding(rule, '%s|%s' % (rule, failed[0].split('(')[0]), 'm4ri/misc.h', failed[0].split('(')[0],
                                    '%d bit-mask witness(es) fail to compile, first: %s' % (len(failed), failed[0]), dict(failed=failed[:20]), label))
     # liveness control: a deliberately false assertion must be rejected
-    src2 = os.path.join(CACHE, 'witness_control.cc')
+    src2 = os.path.join(CACHE, 'witness_control_%d.cc' % os.getpid())
     open(src2, 'w').write('#include <m4ri/misc.h>\nstatic_assert((unsigned long long)(__M4RI_LEFT_BITMASK(3)) == 0x6ULL, "control");\n')
     cmd2 = cmd[:-1] + [src2]
     p2 = subprocess.run(cmd2, stdout=subprocess.PIPE, stderr=subprocess.PIPE)
     rr.instances += 1
     rr.ob(p2.returncode != 0 and 'control' in p2.stderr.decode(errors='replace'), dict(control='false assertion rejected by the compiler'),
           Finding(rule, '%s|control' % rule, 'm4ri/misc.h', '-', 'witness mechanism is dead: a false static_assert compiled', {}, label))
+    for f_ in (src, src2):
+        try:
+            os.remove(f_)
+        except OSError:
+            pass
     if p2.returncode == 0:
         raise AnalysisBroken('C8: control witness compiled; the mechanism proves nothing')
     return rr
